@@ -145,7 +145,7 @@ func runC08(s *core.Sim, tier string) RunInfo {
 		timeout := time.Duration(0)
 		if injectFaults && ok {
 			span := int(to-from)*3 + 6
-			timeout = time.Duration(s.Tape.Draw("deadline-ms", span)) * time.Millisecond
+			timeout = time.Duration(1+s.Tape.Draw("deadline-ms", span)) * time.Millisecond // (never 0: a context that is done on entry makes Go's select pick at random between it and a ready channel)
 			w.Disk.Latency = func(op string) time.Duration { return time.Millisecond }
 		}
 		hist = append(hist, fmt.Sprintf("delete [%d,%d) accept=%v unflushed=%d deadline=%v", from, to, ok, unfl, timeout))
